@@ -1,6 +1,10 @@
 mod util;
 mod runq;
 mod witness;
+mod run;
+mod gen;
+mod c16;
+mod tables;
 
 fn main() {
     util::silence_panics();
@@ -23,8 +27,37 @@ fn main() {
             runq::cleanup_tmp();
             eprintln!("{} witnesses fail", failed);
         }
+        "tables" => {
+            // harness tables <outdir>: regenerate Generated/*.lean from the running code
+            let out = args.get(2).expect("outdir");
+            std::fs::create_dir_all(out).unwrap();
+            tables::write_all(out);
+        }
+        "gen" => {
+            // harness gen <ID> <quick|thorough> <seed> <outdir>
+            let id = args.get(2).expect("id").clone();
+            let tier = args.get(3).map(|s| s.as_str()).unwrap_or("quick");
+            let seed: u64 = args.get(4).and_then(|s| s.parse().ok()).unwrap_or(0);
+            let out = args.get(5).expect("outdir");
+            let params = run::Params { tier_thorough: tier == "thorough", seed };
+            let mut r = match id.as_str() {
+                "C16" => c16::run(&params),
+                _ => { eprintln!("unknown property {}", id); std::process::exit(2); }
+            };
+            // the witnesses of this property run as part of every check (regression corpus)
+            for w in witness::all() {
+                if w.props.contains(&id.as_str()) {
+                    r.oracle_checks += 1;
+                    if let Err(e) = (w.run)() {
+                        r.fail(format!("witness {}", w.id), &format!("{}:{}", w.id, "witness"), format!("{} :: {}", w.what, e));
+                    }
+                }
+            }
+            runq::cleanup_tmp();
+            r.write(out).expect("write run");
+        }
         _ => {
-            eprintln!("usage: harness witness [ids]");
+            eprintln!("usage: harness witness [ids] | gen <ID> <tier> <seed> <outdir>");
             std::process::exit(2);
         }
     }
